@@ -226,6 +226,65 @@ func parseCall(entry, input string) pcall {
 		func() (string, []ast.Node, any) { return obsParseFull(entry, input) }}
 }
 
+func splitCall(input string) pcall {
+	f := func() (string, []ast.Node, any) {
+		var ps []*memefish.RawStatement
+		var err error
+		pv, _ := explore.Try(func() { ps, err = memefish.SplitRawStatements("f.sql", input) })
+		return dumpOf(ps) + fmt.Sprint(err, pv), nil, []any{ps, err}
+	}
+	return pcall{fmt.Sprintf("SplitRawStatements(%q)", input), func() (string, []ast.Node) { o, r, _ := f(); return o, r }, f}
+}
+
+// scribble overwrites everything a caller can overwrite in a returned value: every exported field,
+// slice element and pointed-to value reachable from it (strings, numbers, booleans; pointers are
+// followed, not replaced). A library whose results depend only on the arguments cannot notice.
+func scribble(v reflect.Value, seen map[uintptr]bool, depth int) {
+	if depth > 200 {
+		return
+	}
+	switch v.Kind() {
+	case reflect.Interface:
+		if !v.IsNil() {
+			scribble(v.Elem(), seen, depth+1)
+		}
+	case reflect.Pointer:
+		if v.IsNil() || seen[v.Pointer()] {
+			return
+		}
+		seen[v.Pointer()] = true
+		scribble(v.Elem(), seen, depth+1)
+	case reflect.Struct:
+		for i := 0; i < v.NumField(); i++ {
+			if v.Type().Field(i).IsExported() {
+				scribble(v.Field(i), seen, depth+1)
+			}
+		}
+	case reflect.Slice, reflect.Array:
+		for i := 0; i < v.Len(); i++ {
+			scribble(v.Index(i), seen, depth+1)
+		}
+	case reflect.String:
+		if v.CanSet() {
+			v.SetString("\x00scribbled")
+		}
+	case reflect.Int, reflect.Int8, reflect.Int16, reflect.Int32, reflect.Int64:
+		if v.CanSet() {
+			v.SetInt(-77)
+		}
+	case reflect.Uint, reflect.Uint8, reflect.Uint16, reflect.Uint32, reflect.Uint64:
+		if v.CanSet() {
+			v.SetUint(77)
+		}
+	case reflect.Bool:
+		if v.CanSet() {
+			v.SetBool(!v.Bool())
+		}
+	case reflect.Map:
+		// results contain no maps; leave them alone
+	}
+}
+
 var purityCalls = []pcall{
 	parseCall("ParseStatement", "SELECT a FROM t"),
 	parseCall("ParseQuery", "SELECT b, a FROM a AS t"),
@@ -247,14 +306,24 @@ var purityCalls = []pcall{
 	parseCall("ParseQuery", "SELECT 1\n  /* also never closed"),
 	parseCall("ParseDDL", "ALTER VIEW v"),
 	parseCall("ParseDDL", "CREATE FUNCTION f"),
-	{"SplitRawStatements(\"a; b\")", func() (string, []ast.Node) {
-		ps, err := memefish.SplitRawStatements("f.sql", "a; b")
-		return dumpOf(ps) + fmt.Sprint(err), nil
-	}, nil},
+	// every escape kind in every literal kind (scratch buffers of the decoder)
+	parseCall("ParseExpr", `'\u00e9\U0001F600\x41\101\n' || "\u0041\u00e8"`),
+	parseCall("ParseQuery", "SELECT b'\\xff\\000\\n', '\\u4e16\\u754c' FROM `a\\u00e9\\U0001F601b`"),
+	splitCall("a; b"),
+	splitCall(""),
+	splitCall(" /*c*/ "),
+	// a call that fails right after "ident ." followed by one whose first token would lex differently in that state
+	splitCall("SELECT t.'abc"),
+	splitCall("1a; SELECT 2"),
+	parseCall("ParseExpr", "t.'abc"),
+	parseCall("ParseExpr", "1a"),
 	{"Lexer(\"select `select` 'x' 0x1\")", func() (string, []ast.Node) {
 		toks, _, err, pv := fullLex("select `select` 'x' 0x1")
 		return dumpOf(toks) + fmt.Sprint(err, pv), nil
-	}, nil},
+	}, func() (string, []ast.Node, any) {
+		toks, _, err, pv := fullLex("select `select` 'x' 0x1")
+		return dumpOf(toks) + fmt.Sprint(err, pv), nil, []any{toks, err}
+	}},
 	{"QuoteSQLIdent/String", func() (string, []ast.Node) {
 		return token.QuoteSQLIdent("select") + token.QuoteSQLString("a'b") + token.QuoteSQLBytes([]byte("\x00")), nil
 	}, nil},
@@ -323,7 +392,7 @@ func C18obs(k int) {
 // C18: purity.
 func C18(r *explore.Run) {
 	r.Level = "model_checking"
-	r.Rule = "(1) histories: every sequence of at most N calls from a 21-call alphabet chosen to collide (same input twice, shared identifier names, '>>' splitting, sign folding, error paths reading the type-name tables, CREATE TABLE printing) plus SQL/Pos+End/Walk on ASTs returned earlier in the same history; in every state the call's observation (full tree dump with positions, SQL(), error texts) equals its observation in the initial state, earlier ASTs are unchanged, ASTs share no heap object with each other or with package-level state, and the digest of all package-level variables is unchanged; " +
+	r.Rule = "(1) histories: every sequence of at most N calls from a " + fmt.Sprint(len(purityCalls)) + "-call alphabet chosen to collide (same input twice, shared identifier names, '>>' splitting, sign folding, error paths reading the type-name tables, CREATE TABLE printing, every escape kind, splitter calls ending in unusual lexer states) plus SQL/Pos+End/Walk on ASTs returned earlier in the same history; in every state the call's observation (full tree dump with positions, SQL(), error texts) equals its observation in the initial state, earlier ASTs are unchanged, ASTs share no heap object with each other or with package-level state, and the digest of all package-level variables is unchanged; at the end of every history the harness overwrites every exported field and element of every value the calls returned and all calls must still answer as in the initial state; " +
 		"(2) schedules: 2 and 3 goroutines with 1-2 calls each under a cooperative scheduler whose scheduling points are inserted automatically before every statement touching package-level state: all interleavings that switch only at accesses to variables in the write/escape set W (fixpoint), and independently all interleavings over all points with <=2 preemptions; (3) write-set monitor over the S3 expression/DDL token strings; (4) corroboration: the same bodies free-running under the race detector. " +
 		"states = distinct digests of package-level state; transitions = calls executed; traces = histories/schedules executed against the implementation"
 	r.Assume = []string{"scheduling granularity is one statement touching package-level state; finer-grained or aliased accesses are left to the race-detector pass",
@@ -467,6 +536,21 @@ func C18(r *explore.Run) {
 				}
 			}
 		}
+		// the caller overwrites everything it was given; every call must still answer as in the initial state
+		if len(results) > 0 {
+			seen := map[uintptr]bool{}
+			for _, kr := range results {
+				scribble(reflect.ValueOf(kr.val), seen, 0)
+			}
+			for j, call := range purityCalls {
+				o, _ := call.run()
+				transitions++
+				if o != initialObs[j] {
+					c.Violation("C18/history/result-shares-state-with-later-call/"+call.name, strings.Join(hist, " ; ")+" ; <caller overwrites the returned values> ; "+call.name,
+						fmt.Sprintf("after the caller overwrote the values returned by the calls of this history, %s returns a different result than in the initial state: %s", call.name, firstDiff(o, initialObs[j])))
+				}
+			}
+		}
 		traces++
 		c.Sample(strings.Join(hist, " ; "))
 		c.OutcomeStr(strings.Join(hist, ";"))
@@ -553,7 +637,7 @@ func firstDiff(a, b string) string {
 func schedules(r *explore.Run, transitions, traces *int64) {
 	computeInitial()
 	// scenario alphabet: indices into purityCalls that touch package-level state or collide
-	alpha := []int{0, 1, 2, 4, 5, 6, 9}
+	alpha := []int{0, 1, 2, 4, 5, 6, 9, 18, 19}
 	type scenario struct{ threads [][]int }
 	var scs []scenario
 	for _, a := range alpha {
